@@ -26,7 +26,7 @@ FACTOR = 20.0
 
 
 def floors(tier):
-    return {"runs": 400, "runs_with_bound_at_start": 150, "runs_with_active_bound_at_end": 150, "outward_start_runs": 60, "lattice_least_squares_runs": 60, "runs_with_inert_differencing_settings": 100, "runs_continued_from_a_target_stop": 150, "runs_whose_gradient_is_returned_in_one_reused_array": 150, "runs_continued_from_a_target_stop_after_another_run_in_between": 60, "runs_continued_from_a_target_already_met_at_the_start_point": 40, "runs_with_user_step_cap_below_one": 60, "runs_preceded_by_another_problem_on_the_same_box": 150, "runs_with_free_optimum_grazing_a_bound": 60, "runs_in_30_to_90_dimensions_with_memory_above_10": 40, "__nontrivial__": 150}
+    return {"runs": 400, "runs_with_bound_at_start": 150, "runs_with_active_bound_at_end": 150, "outward_start_runs": 60, "lattice_least_squares_runs": 60, "runs_with_inert_differencing_settings": 100, "runs_continued_from_a_target_stop": 150, "runs_whose_gradient_is_returned_in_one_reused_array": 150, "runs_continued_from_a_target_stop_after_another_run_in_between": 60, "runs_continued_from_a_target_already_met_at_the_start_point": 40, "runs_with_user_step_cap_below_one": 60, "runs_preceded_by_another_problem_on_the_same_box": 150, "runs_warm_started_from_the_solution_of_the_preceding_problem": 60, "runs_whose_functions_are_shared_with_the_preceding_problem_and_receive_their_data_through_args": 60, "runs_with_free_optimum_grazing_a_bound": 60, "runs_in_30_to_90_dimensions_with_memory_above_10": 40, "__nontrivial__": 150}
 
 
 def exhaustive(tier):
@@ -217,8 +217,16 @@ def run(spec):
         tw = dict(spec["problem"], seed=int(spec["problem"]["seed"]) + 1009, geometry_from=dict(spec["problem"]))
         twin = gen.make_problem(tw)
         if twin.n == P.n:
-            probes.run_min(twin, dict(cfg))
+            if int(spec["problem"]["seed"]) % 2 == 0:
+                # one objective / gradient function for both problems, the data passed through `args` (a parameter study)
+                cfg["via_args"] = True
+                out.count("runs_whose_functions_are_shared_with_the_preceding_problem_and_receive_their_data_through_args")
+            first = probes.run_min(twin, dict(cfg))
             out.count("runs_preceded_by_another_problem_on_the_same_box")
+            if int(spec["problem"]["seed"]) % 4 in (0, 1) and first.result is not None:
+                # ... warm-started from the solution of the preceding problem
+                P.x0 = np.array(first.result.x, dtype=float, copy=True)
+                out.count("runs_warm_started_from_the_solution_of_the_preceding_problem")
     tr = probes.run_min(P, cfg)
     where = f"{P.spec['family']} n={P.n} box={P.spec.get('box')} start={P.spec.get('start')} maxcor={spec['maxcor']}"
     pg = judge(out, P, tr, where)
